@@ -15,7 +15,7 @@ from gemdat.jumps import Jumps, _generic_transitions_to_jumps  # noqa: E402
 from gemdat.transitions import _calculate_transition_events  # noqa: E402
 
 PID = 'C04'
-MODULES = ['GProofs.C03', 'GProofs.C04']
+MODULES = ['GProofs.C03', 'GProofs.C04', 'GProofs.C04Strict']
 MRS = [0, 1, 2, 3, 5]
 
 
